@@ -113,6 +113,8 @@ struct Truth {
     merges: Vec<(usize, u64)>,
     late: BTreeSet<(usize, u64)>,
     too_late: BTreeSet<(usize, u64)>,
+    retention_of: BTreeMap<usize, u64>,            // clients restarted with another retention
+    commits_since_restart: BTreeMap<usize, u64>,
     offered: Vec<BTreeSet<u64>>,           // events already offered to each client
     rollback_then_refused: bool,
     stale_proposal: bool,
@@ -239,6 +241,26 @@ fn run_world<S: MdkStorageProvider, F: Fn(usize) -> S>(run: &mut Run, lines_in: 
             for e in base..base + 4 { g.delivered.insert(e); }
             script.reverse();
         }
+        // persistent backends, residue 1: a client is restarted with a SMALLER snapshot retention after several commits; the very
+        // next commit must bring its stored snapshots within the new limit (scripted back to back: nothing else touches the
+        // snapshot manager in between)
+        if h % 5 == 1 && w.reopen.is_some() && retention >= 4 {
+            for i in 0..4u64 {
+                let ev = g.next_ev; g.next_ev += 1;
+                g.evs.insert(ev, EvMeta { kind: "commit", author: 0, epoch_hint: 1 + i });
+                script.push(format!("PR COMMIT 0 su {ev} {}", 100 + g.r.below(4)));
+                for c in 0..n { script.push(format!("PR DELIVER {c} {ev}")); }
+                g.delivered.insert(ev);
+            }
+            let newret = 1 + g.r.below(2);
+            script.push(format!("PR RESTART 1 {newret}"));
+            let ev = g.next_ev; g.next_ev += 1;
+            g.evs.insert(ev, EvMeta { kind: "commit", author: 0, epoch_hint: 5 });
+            script.push(format!("PR COMMIT 0 su {ev} 101"));
+            for c in [1usize, 0, 2] { script.push(format!("PR DELIVER {c} {ev}")); }
+            g.delivered.insert(ev);
+            script.reverse();
+        }
         // every fifth history (another residue) removes a two-device user right away and then lets the remaining members talk
         if removal_script {
             let (e_rm, e_app) = (g.next_ev, g.next_ev + 1); g.next_ev += 2;
@@ -315,6 +337,7 @@ fn step<S: MdkStorageProvider>(w: &mut World<S>, l: &str, truth: &mut Truth, run
     }
     if t[1] == "MERGE" { truth.merges.push((m, t[3].parse().unwrap())); }
     if t[1] == "JOIN" { truth.visited[m].insert(t[3].parse::<u64>().unwrap() + 1); }
+    if t[1] == "RESTART" && t.len() > 3 { truth.retention_of.insert(m, t[3].parse().unwrap()); truth.commits_since_restart.insert(m, 0); }
     let before_restart = if t[1] == "RESTART" { Some(strip(&w.fingerprint(m, "-", None, None))) } else { None };
     if t[1] == "SEND" && t.len() > 6 { truth.sendx.push((m, t[5].parse().unwrap(), t[6].parse().unwrap())); }
     let members_before = if t[1] == "DELIVER" { w.members_of(m) } else { vec![] };
@@ -390,7 +413,11 @@ fn step<S: MdkStorageProvider>(w: &mut World<S>, l: &str, truth: &mut Truth, run
         } }
         // C20: never more snapshots than the configured retention
         if let Some(sn) = fp.split(" snaps=").nth(1).and_then(|x| x.split(' ').next()).and_then(|x| x.parse::<u64>().ok()) {
-            if sn > truth.retention { run.oracle_fail("C20", "", format!("[{backend}] member {m} holds {sn} snapshots, retention is {}", truth.retention), seqtxt()); }
+            let lim = truth.retention_of.get(&m).cloned().unwrap_or(truth.retention);
+            // (right after a restart with a smaller retention the stored snapshots are still there: the bound is due once the
+            //  snapshot manager has been used again, i.e. after the next applied commit)
+            let due = !truth.retention_of.contains_key(&m) || truth.commits_since_restart.get(&m).cloned().unwrap_or(0) > 0;
+            if sn > lim && due { run.oracle_fail("C20", "", format!("[{backend}] member {m} holds {sn} snapshots, retention is {lim}"), seqtxt()); }
         }
     }
     if (t[1] == "COMMIT") && line.contains(" removes=") && !line.contains(" removes=-") && !line.contains("refused=1") {
@@ -414,6 +441,7 @@ fn step<S: MdkStorageProvider>(w: &mut World<S>, l: &str, truth: &mut Truth, run
             for p in ["C03", "C08"] { run.oracle_fail(p, "", format!("[{backend}] after `{l}` member {m}'s MLS group is no longer active (its leaf was removed) but its stored group is still Active"), seq.join(" || ") + " || " + &line); }
         } }
     }
+    if t[1] == "DELIVER" && fp.starts_with("res=Commit") { *truth.commits_since_restart.entry(m).or_insert(0) += 1; }
     // C08: after every operation the stored record of an active group shows the epoch of the MLS state
     if fp.contains(" act=1 ") {
         let get = |k: &str| fp.split(k).nth(1).and_then(|x| x.split(' ').next()).and_then(|x| x.parse::<u64>().ok());
